@@ -62,11 +62,25 @@ FAMILY = [
     ("enable_comment_interpolation", True, False, "<div><!-- ${1+1} --></div>", "PageTemplate", "PageTemplate"),
     ("restricted_namespace", True, False, '<div v-bind:id="x">y</div>', "PageTemplate", "PageTemplate"),
     ("default_expression", "python", "string", '<p tal:content="abc">x</p>', "PageTemplate", "PageTemplate"),
+    # edge values: unset vs empty, one member vs another
+    ("boolean_attributes_unset_vs_empty", None, [], '<input checked="${c}" />', "PageTemplate", "PageTemplate"),
+    ("boolean_attributes_members", ["foo"], ["foo", "bar"], '<a foo="${c}" bar="${c}">x</a>', "PageTemplate", "PageTemplate"),
+    ("implicit_i18n_attributes_members", ["alt"], ["title"], '<img alt="Hello" title="World" />', "PageTemplate", "PageTemplate"),
+    ("extra_builtins_more", {"foo": 1}, {"foo": 1, "bar": 2}, "<p>${foo} ${bar | 'nobar'}</p>", "PageTemplate", "PageTemplate"),
+    ("default_expression_structure", "python", "structure", '<p tal:content="name">x</p>', "PageTemplate", "PageTemplate"),
     # runtime-only options: sharing an entry is *correct* for these
     ("encoding", None, "utf-8", '<p tal:content="name">x</p>', "PageTemplate", "PageTemplate"),
     ("extra_builtins_value", {"foo": 1}, {"foo": 2}, "<p>${foo}</p>", "PageTemplate", "PageTemplate"),
 ]
 FAMILY_BY_NAME = {f[0]: f for f in FAMILY}
+OPTION_OF = {
+    "extra_builtins_value": "extra_builtins",
+    "extra_builtins_more": "extra_builtins",
+    "boolean_attributes_unset_vs_empty": "boolean_attributes",
+    "boolean_attributes_members": "boolean_attributes",
+    "implicit_i18n_attributes_members": "implicit_i18n_attributes",
+    "default_expression_structure": "default_expression",
+}
 SET_OPTIONS = {"implicit_i18n_attributes", "boolean_attributes"}
 
 
@@ -147,8 +161,7 @@ class C15(CheckBase):
     def _config(self, spec: dict) -> dict:
         cfg = {}
         for k, v in spec.get("config", {}).items():
-            if k == "extra_builtins_value":
-                k = "extra_builtins"
+            k = OPTION_OF.get(k, k)
             if k in SET_OPTIONS and v is not None:
                 v = set(v)
             cfg[k] = v
@@ -208,13 +221,11 @@ class C15(CheckBase):
                 ta = {"cls": ca, "body": body, "config": dict(common)}
                 tb = {"cls": cb, "body": body, "config": dict(common)}
                 if name not in ("class", "class_module"):
-                    if va is not None or name in ("boolean_attributes",
-                                                  "encoding"):
+                    # None means "option not passed at all"
+                    if va is not None:
                         ta["config"][name] = va
-                    tb["config"][name] = vb
-                    if va is None and name not in ("boolean_attributes",
-                                                   "encoding"):
-                        ta["config"].pop(name, None)
+                    if vb is not None:
+                        tb["config"][name] = vb
             if name in ("implicit_i18n_translate",):
                 pass
             if name not in ("class", "class_module", "filename") and \
@@ -754,9 +765,7 @@ class C15(CheckBase):
             yield d
         for ti, t in enumerate(c["templates"]):
             for k in list(t.get("config", {})):
-                if c.get("family") == k or (
-                        c.get("family") == "extra_builtins_value" and
-                        k == "extra_builtins_value"):
+                if c.get("family") == k:
                     continue
                 d = copy.deepcopy(c)
                 del d["templates"][ti]["config"][k]
